@@ -109,10 +109,12 @@ def check_cacg(run, A):
         raise AnalysisError('from_covariance: constructor call not found')
     _, pos, kw = ctor[0]
     ev_ = kw.get('covariance_eigenvalues')
-    alts = [strip_views(x) for x in unwrap_gamma(ev_)] if ev_ is not None else []
+    from ..walk import gamma_paths
+    alt_paths = [(c_, strip_views(x)) for c_, x in gamma_paths(ev_)] if ev_ is not None else []
+    alts = [a_ for _c, a_ in alt_paths]
     n_floor = 0
     ok_all = bool(alts)
-    for a in alts:
+    for ca, a in alt_paths:
         if is_call_to(a, 'numpy.clip') and const_val(call_arg(a, 2, 'a_max')) is None:
             x, fl = call_arg(a, 0, 'a'), call_arg(a, 1, 'a_min')      # clip(x, floor, None) == maximum(x, floor)
         elif is_call_to(a, 'numpy.maximum'):
@@ -144,6 +146,24 @@ def check_cacg(run, A):
                 run.check(lf.op == 'param' and lf.args[0] == 'eigenvalue_floor', 'R-SAN', 'cACG: max-normalised eigenvalues are floored by the option itself', fn.loc(lf.node or a.node), '',
                           'on the path where the eigenvalues are divided by their (floored) maximum the floor is not the absolute `eigenvalue_floor`: a relative floor vanishes for a '
                           'zero scatter matrix', construct=f'R-SAN::{q}::absolute-floor-after-normalisation')
+        # ... and the other way round: the option itself is an absolute bound, meaningful only for eigenvalues scaled to maximum one ("eigenvalues lie in [floor, 1] with
+        # maximum 1").  Applied to raw eigenvalues it is a bound on a quantity of arbitrary scale: a scatter with large entries is not floored at all, a faint one is
+        # replaced by the floor altogether.  The option string that selects the max-normalisation is 'eigenvalue'.
+        from ..walk import selected_options
+        for cx, leaf_x in gamma_paths(x, ca):
+            lx = strip_views(leaf_x)
+            normalised = lx.op == 'binop' and lx.args[0] == 'Div' and any(is_call_to(y, 'numpy.amax', 'numpy.max') for y in walk_terms(lx.args[2], into_mu=False))
+            for cf, leaf_f in gamma_paths(fl, cx):
+                lf = strip_views(leaf_f)
+                absolute = lf.op == 'param' and lf.args[0] == 'eigenvalue_floor'
+                if absolute:
+                    run.check(normalised, 'R-SAN', 'cACG: the absolute floor is applied to max-normalised eigenvalues only', fn.loc(a.node), '',
+                              'np.maximum(eigenvalues, eigenvalue_floor) on eigenvalues that were not divided by their maximum: the stored eigenvalues do not lie in [floor, 1]',
+                              construct=f'R-SAN::{q}::absolute-floor-needs-normalisation')
+                opts = [next(iter(o)) for o in selected_options(cf, 'covariance_norm') if len(o) == 1]
+                if opts and normalised:
+                    run.check(opts == ['eigenvalue'], 'R-SAN', "cACG: covariance_norm='eigenvalue' selects the max-normalisation", fn.loc(a.node), '',
+                              f'the eigenvalues are divided by their maximum under covariance_norm == {opts[0]!r}', construct=f'R-SAN::{q}::option-eigenvalue')
         # the floor is the option itself (eigenvalues already scaled to maximum one) or the option times the LARGEST eigenvalue of the same matrix:
         # relative to any other statistic (the smallest eigenvalue, a mean) the bound `eigenvalues >= floor * max` is gone
         for alt in unwrap_gamma(fl):
@@ -167,12 +187,43 @@ def check_cacg(run, A):
                       'max-normalisation is not eigenvals / maximum(amax(eigenvals, axis=-1, keepdims=True), tiny)', construct=f'R-SAN::{q}::max-normalisation')
     run.check(ok_all and n_floor >= 1, 'R-SAN', 'cACG: stored eigenvalues are floored with eigenvalue_floor on every path', fn.loc(), '',
               f'{n_floor} of {len(alts)} paths floor the eigenvalues with np.maximum(., eigenvalue_floor ...)', construct=f'R-SAN::{q}::floor')
+    # covariance_norm='trace': the matrix that is decomposed is divided by its floored trace - and only under that option
+    from ..walk import gamma_paths as _gp, selected_options as _so
+    eig_calls = [e.term for e in g.events if e.kind == 'call' and is_call_to(e.term, 'numpy.linalg.eigh')]
+    n_trace = 0
+    for ec in eig_calls:
+        for cm, leaf_m in _gp(call_arg(ec, 0)):
+            lm = strip_views(leaf_m)
+            from ..walk import trace_operand
+            by_trace = lm.op in ('binop', 'iop') and lm.args[0] == 'Div' and any(trace_operand(y) is not None for y in walk_terms(lm.args[2], into_mu=False))
+            if not by_trace:
+                continue
+            n_trace += 1
+            opts = [next(iter(o)) for o in _so(cm, 'covariance_norm') if len(o) == 1]
+            run.check(opts == ['trace'], 'R-SAN', "cACG: covariance_norm='trace' selects the trace normalisation", fn.loc(lm.node), '',
+                      f'the matrix is divided by its trace under {("covariance_norm == " + repr(opts[0])) if opts else "no test of covariance_norm"}', construct=f'R-SAN::{q}::option-trace')
+            run.check(is_call_to(strip_views(lm.args[2]), 'numpy.maximum') and any(positive_floor(y) for y in (call_arg(strip_views(lm.args[2]), 0), call_arg(strip_views(lm.args[2]), 1))),
+                      'R-SAN', 'cACG: the trace that divides is floored', fn.loc(lm.node), '', 'division by an unfloored trace: a zero scatter gives 0 / 0', construct=f'R-SAN::{q}::trace-floor')
+    if n_trace == 0:
+        raise AnalysisError('from_covariance: the trace normalisation of the decomposed matrix is not found')
     real = [e for e in g.events if e.term is not None and any(x.op == 'attr' and x.args[1] == 'real' for x in walk_terms(e.term))]
     run.check(bool(real), 'R-SAN', 'cACG: eigenvalues are made real', fn.loc(), '', '`.real` of the eigenvalues vanished', construct=f'R-SAN::{q}::real')
     asserts = [e for e in g.events if e.kind == 'assert' and any(is_call_to(x, 'numpy.isfinite') for x in walk_terms(e.term))]
     run.check(bool(asserts), 'R-SAN', 'cACG: finiteness of the stored eigenvalues asserted', fn.loc(), '', 'assert np.isfinite(eigenvals).all() vanished', construct=f'R-SAN::{q}::finite-assert')
     # eigenvalue_floor == 0 raises explicitly when the decomposition fails
-    raises = [e for e in g.events if e.kind == 'raise' and any(c.op == 'cmp' and c.args[0] == 'Eq' and const_val(c.args[2]) == 0 for c, p in e.guards)]
+    def _zero_floor_test(c, pol):
+        c0 = c
+        while isinstance(c0, T) and c0.op == 'unop' and c0.args[0] == 'Not':
+            c0, pol = c0.args[1], not pol
+        return pol and isinstance(c0, T) and c0.op == 'cmp' and c0.args[0] == 'Eq' and const_val(c0.args[2]) == 0
+    raises = [e for e in g.events if e.kind == 'raise' and any(_zero_floor_test(c, p) for c, p in e.guards)]
+    # the error object may be selected first and raised afterwards (`error = RuntimeError(...) if floor == 0 else None ... raise error`)
+    for e in g.events:
+        if e.kind == 'raise' and e.term is not None and e not in raises:
+            for conds, leaf in gamma_paths(e.term):
+                if call_parts(strip_views(leaf))[0] is not None and any(_zero_floor_test(c, p) for c, p in conds.values()):
+                    raises.append(e)
+                    break
     run.check(bool(raises), 'R-SAN', 'cACG: eigenvalue_floor = 0 raises an explicit error when the decomposition fails', fn.loc(), '', 'explicit RuntimeError for eigenvalue_floor == 0 vanished',
               construct=f'R-SAN::{q}::zero-floor-error')
     q2 = D + 'complex_angular_central_gaussian::ComplexAngularCentralGaussianTrainer._fit'
